@@ -61,3 +61,35 @@ Fixpoint jpeg_dims (fuel : nat) (d : list Z) (off : Z) : option dims :=
 (* fuel that always suffices *)
 Definition fuel_for (d : list Z) (off : Z) : nat := S (Z.to_nat (len d - off)).
 Definition bytes_ok (d : list Z) : bool := forallb (fun b => (0 <=? b) && (b <? 256)) d.
+
+(* ms_modern/{docx,pptx,xlsx}_extractor._get_image_pixel_dimensions, JPEG branch (i starts at 2):
+     while i + 4 <= size:
+       if data[i] != 0xFF: i += 1; continue
+       marker = data[i+1]
+       if marker in (0xD9, 0xDA): break
+       length = be16(data[i+2:i+4])
+       if length < 2: break
+       if marker in SOF and i + 2 + length <= size: return (w or None, h or None)
+       i += 2 + length
+   result: Some (Found w h) (0 standing for None), Some NotFound, None = out of fuel *)
+(* int.from_bytes(data[i:i+2], "big") with Python slice semantics: the slice is cut at len(data) *)
+Definition be16_slice (d : list Z) (i : Z) : Z :=
+  if i + 2 <=? len d then u16be d i else if i + 1 <=? len d then byte_at d i else 0.
+
+Fixpoint ooxml_jpeg_dims (fuel : nat) (d : list Z) (i : Z) : option dims :=
+  match fuel with
+  | O => None
+  | S f =>
+      if i + 4 <=? len d then
+        if negb (byte_at d i =? 255) then ooxml_jpeg_dims f d (i + 1)
+        else
+          let marker := byte_at d (i + 1) in
+          if (marker =? 217) || (marker =? 218) then Some NotFound
+          else
+            let length := u16be d (i + 2) in
+            if length <? 2 then Some NotFound
+            else if is_sof marker && (i + 2 + length <=? len d)
+            then Some (Found (be16_slice d (i + 7)) (be16_slice d (i + 5)))
+            else ooxml_jpeg_dims f d (i + 2 + length)
+      else Some NotFound
+  end.
